@@ -180,6 +180,12 @@ def fixed_cases():
     yield {'tree': t, 'faults': [[0, 'ValueError', 'before']]}                       # D11
     yield {'tree': ['list', [['tcmt', 't', ['fn2', 'x', []]], ['int', 1]]], 'faults': [[0, 'KeyError', 'after']]}
     yield {'tree': ['fn', 'top', []], 'badret': [0, 'int']}
+    for exc in ('ValueError', 'TypeError', 'Injected'):
+        for phase in ('before', 'after'):
+            # a node whose printer is registered through a predicate (a second, later registered predicate accepts it too)
+            yield {'tree': ['fn7', 'p', []], 'faults': [[0, exc, phase]]}
+            yield {'tree': ['list', [['fn7', 'p', [['int', 1]]], ['fn', 'q', [['fn7', 'r', []]]], ['int', 2]]], 'faults': [[0, exc, phase]]}
+            yield {'tree': ['dict', [['k', ['fn7', 'p', []]], ['z', ['fn6', 'o', []]]]], 'faults': [[0, exc, phase], [1, exc, phase]]}
     # a fault on one invocation only of a printer that runs twice (commented dict value)
     for nth in (1, 2):
         for w_text in ('c', 'a comment that is long enough to be put above the value it belongs to'):
